@@ -180,6 +180,47 @@ def r04_5(run, model, mir):
     run.floor("positive control: explicit panic sites recognised elsewhere in the compiler", ctrl, 50)
 
 
+def r04_7(run, model):
+    from lib import bounds as B
+    run.rule("R04.7", "hand-written scanners never index past the end: every `bytes[E]` / `tokens[E]` in the lexer's multi-line string scanner, the "
+                      "parser input and the query's byte scanning is dominated by a bounds test on E itself (short-circuit `E < len &&`, "
+                      "`E >= len ||`, enclosing while/if, or an earlier `if E >= len { exit }` with no increment in between)")
+    n = 0
+    for rel in ("crates/lexer/src/lib.rs", "crates/parser/src/input.rs", "crates/compiler/src/query.rs", "crates/wasm-app/src/lib.rs"):
+        if rel not in model.src_files():
+            continue
+        allf = model.fns(rel)
+        for fn in allf:
+            if fn.body is None:
+                continue
+            # functions explicitly marked unused are dead code
+            called = not any(a["name"] == "allow" and re.search(r"unused|dead_code", a["args"]) for a in fn.node.get("attrs", []))
+            par = None
+            aliases = {}
+            for l in S.find(fn.body, "Local"):
+                if l["pat"]["k"] == "PIdent" and l.get("init") is not None:
+                    t = S.norm_ws(run.facts.text(rel, l["init"]["sp"]))
+                    m = re.fullmatch(r"([a-z_.()]+)\.as_bytes\(\)", t)
+                    if m:
+                        aliases[l["pat"]["name"]] = m.group(1)
+            for x in S.walk(fn.body):
+                if x["k"] != "Index" or x["index"]["k"] == "Range":
+                    continue
+                b = S.norm_ws(run.facts.text(rel, x["base"]["sp"]))
+                if not re.search(r"bytes|tokens", b):
+                    continue
+                if not called:
+                    continue
+                if par is None:
+                    par = S.Parents(fn.body)
+                n += 1
+                g = B.index_guard(lambda nd: S.norm_ws(run.facts.text(rel, nd["sp"])), x, par, aliases=tuple(v for k, v in aliases.items() if k == b))
+                it = S.norm_ws(run.facts.text(rel, x["sp"]))
+                run.ob("R04.7", f"{fn.qual}|{it}", g is not None, site(rel, x["sp"]), f"{it}: {g or 'no bounds test on this index expression dominates the access'}",
+                       witness="a text ending in `\\\\line⏎   \\` (half-typed multi-line string): bytes[idx + 1] is read one past the end and the lexer panics")
+    run.floor("guarded index sites in scanners", n, 10)
+
+
 def run(run, model):
     mir = Mir(run.facts)
     an = run.try_rule(r04_1, model)
@@ -187,6 +228,10 @@ def run(run, model):
     run.try_rule(r04_3, model)
     run.try_rule(r04_4, model, mir)
     run.try_rule(r04_5, model, mir)
+    run.try_rule(r04_7, model)
+    from rules import c15
+    run.rule("R04.8", "a link input that lacks a pinned dependency is an error, not a crash: shared with C15 R15.4")
+    run.try_rule(c15.r15_4, model)
     run.rule("R04.6", "no cyclic type can be built: shared with C03 R03.2 (occurs before binding; occurs handles every type former)")
     run.try_rule(c03.r03_2, model)
     run.assume("Parser::expect consumes an unexpected token unless it is in the recovery set; the analysis treats a failed expect as possibly non-advancing")
